@@ -6,6 +6,8 @@ func newVisited() visitedComponent {
 		schema:   make(map[*Schema]struct{}),
 		pathItem: make(map[*PathItem]struct{}),
 		rootPath: make(map[*Operation]string),
+
+		activePath: make(map[string]int),
 	}
 }
 
@@ -16,6 +18,9 @@ type visitedComponent struct {
 	// rootPath maps the operations of the path items under the document's paths to a reference to
 	// that path ("#/paths/~1a"): a copy of such a path item met further down is a cycle
 	rootPath map[*Operation]string
+	// activePath counts, per such reference, the path items (the path itself or inlined copies of
+	// it) whose operations are being internalized
+	activePath map[string]int
 }
 
 // resetVisited clears visitedComponent map
